@@ -37,12 +37,17 @@ def wmflags(fn):
     return v
 
 
-def build_pattern(rng, tr, pathname, ext, globstar):
+def build_pattern(rng, tr, pathname, ext, globstar, paren_ok=False):
     """A `|`-joined pattern from known pieces: returns text, [(negated, piece text, ast)]."""
     ents = tr.lexical()
     pieces = []
     n = rng.choice((0, 1, 1, 2, 3))
     for _ in range(n):
+        if paren_ok and rng.random() < 0.12:
+            # an exclusion whose body opens with a literal `(`: behind `-`, or behind `!` without EXTMATCH, that is no extended group
+            mid = rng.choice(['a', 'b', 'ab', ''])
+            pieces.append((True, '(' + mid + ')*', (('lit', '('),) + tuple(('lit', c) for c in mid) + (('lit', ')'), ('star',))))
+            continue
         if pathname:
             ast = gen.tree_pattern(rng, ents, ext=ext, globstar=globstar, maxseg=3)
         else:
@@ -180,8 +185,9 @@ def check_config(ctx, tr, rng, k, j, mon):
         fn.remove('SYMLINKS')
     ext = 'EXTMATCH' in fn
     gs = 'GLOBSTAR' in fn
-    fpieces = build_pattern(rng, tr, 'FILEPATHNAME' in fn, ext, gs)
-    dpieces = build_pattern(rng, tr, 'DIRPATHNAME' in fn, ext, gs) if rng.random() < 0.6 else []
+    paren_ok = 'MINUSNEGATE' in fn or not ext
+    fpieces = build_pattern(rng, tr, 'FILEPATHNAME' in fn, ext, gs, paren_ok)
+    dpieces = build_pattern(rng, tr, 'DIRPATHNAME' in fn, ext, gs, paren_ok) if rng.random() < 0.6 else []
     mark = '-' if 'MINUSNEGATE' in fn else '!'
 
     def text_of(pieces):
@@ -227,6 +233,15 @@ def check_config(ctx, tr, rng, k, j, mon):
         skipped2 = w.get_skipped()      # the count belongs to the run: a second run of the object reports the same number
         got = [os.path.abspath(p) for p in got]
         got2 = [os.path.abspath(p) for p in got2]
+        # the same walk with everything given as bytes (every third configuration): same files, same count
+        gotb = None
+        if (k + j) % 3 == 0:
+            try:
+                wb = WM.WcMatch(os.fsencode(root_arg), os.fsencode(ftext), os.fsencode(dtext), wmflags(fn))
+                gotb = (sorted(os.path.abspath(os.fsdecode(p)) for p in wb.match()), wb.get_skipped())
+            except Exception as e:  # noqa: BLE001
+                gotb = (f'raised {type(e).__name__}', None)
+            ctx.count('bytes_twin_walks')
         events = [os.path.abspath(e) if not os.path.isabs(e) else e for e in events]
     except Exception as e:  # noqa: BLE001
         ctx.disagree(f'WcMatch raised {type(e).__name__}', dict(wit, exception=repr(e)[:200]))
@@ -247,6 +262,10 @@ def check_config(ctx, tr, rng, k, j, mon):
         return
     if got2 != got:
         ctx.disagree('imatch() does not yield match()\'s list', dict(wit, match=got_rel[:20]))
+    if gotb is not None and gotb != (sorted(got), skipped):
+        ctx.disagree('the walk with bytes arguments differs from the walk with str arguments',
+                     dict(wit, str_result=got_rel[:20], str_skipped=skipped, bytes_skipped=gotb[1],
+                          bytes_result=gotb[0] if isinstance(gotb[0], str) else [os.path.relpath(p, root) for p in gotb[0]][:20]))
     ctx.count('skipped_counter_checks')
     if skipped2 != skipped:
         ctx.disagree('get_skipped() after a second run of the same object differs from the first run', dict(wit, first=skipped, second=skipped2))
